@@ -28,6 +28,7 @@ ASSUMPTIONS = ["affine law and line function in vf/model/ec.py",
                "secp256k1 encodes the identity as y == 0: finite results with y == 0 cannot be "
                "represented and are counted, not compared"]
 ENGINE = "exhaustive enumeration over GF(q)^3 / GF(q)^6 + hypothesis on the real curves"
+TECHNIQUE = ("polynomial identity testing by exhaustive enumeration of all coordinate tuples over small fields + property-based testing (Hypothesis) under random scalings on the real fields")
 REQUIRED_LABELS = {t: ["A:add:generic", "A:add:double_via_add", "A:add:inverse", "A:add:inf_operand",
                        "A:line:chord", "A:line:tangent", "A:line:vertical", "A:jac:generic",
                        "A:jac:double_via_add", "B:add:double_via_add", "B:add:inverse", "B:inf_rep:(0,0,0)",
